@@ -489,8 +489,13 @@ def r02_5(prog, rep, rid='R02.5'):
                       history='task 1 with colocate tag t runs on node 3; '
                       'task 2 with tag t is placed on node 0')
         for m, lab, left in member:
-            idx_ok = "node['index']" in d.expr_depends(m.ast.left) or \
-                'node' in d.expr_depends(m.ast.left)
+            nodevars = set()
+            for h in F.loops:
+                if g.nodes[h].kind == 'for':
+                    nodevars |= set(stores_in_target(g.nodes[h].ast.target))
+            dep = d.expr_depends(m.ast.left)
+            idx_ok = any("%s['index']" % v in dep or v in dep
+                         for v in nodevars)
             rep.check(idx_ok, rid, f, '%s: the membership test is on the '
                       "node's index" % K.name, construct='%s:colo-index'
                       % K.name, message='%s: the colocate membership test `%s` '
